@@ -66,7 +66,7 @@ theorem goodAt_congr {α} {m m' : RM α} {s : RState} (h : m s = m' s) (hg : Goo
   rw [h]
   exact hg top rest hs
 
-theorem macroEnter_streams (body : Node) (s : RState) : (macroEnter body s).streams = s.streams := by
+theorem macroEnter_streams (tid : Nat) (body : Node) (s : RState) : (macroEnter tid body s).streams = s.streams := by
   simp [macroEnter]
 
 theorem good_all (cfg : ECfg) (hq : cfg.tc.q.sharedFallbackVar = false) : ∀ f,
@@ -254,23 +254,33 @@ theorem good_all (cfg : ECfg) (hq : cfg.tc.q.sharedFallbackVar = false) : ∀ f,
             · intro e s' h; cases h
         · refine good_bind _ _ (keeps_enVal _ _ _).good (fun v => ?_)
           split
-          · split
+          · rename_i tid name _
+            split
             · exact (keeps_unsupported _).good
             · rename_i body _
-              exact good_wrap (eval cfg [] f body) (macroEnter body) macroLeave macroRaise
-                (fun _ => macroEnter_streams _ _) (fun _ _ => rfl) (fun _ _ => rfl) (ihE [] body)
+              exact good_wrap (eval cfg [] f body) (macroEnter tid body) macroLeave macroRaise
+                (fun _ => macroEnter_streams _ _ _) (fun _ _ => rfl) (fun _ _ => rfl) (ihE [] body)
           · exact (keeps_unsupported _).good
       | useInternal name =>
         simp only [eval]
         split
         · exact (keeps_unsupported _).good
-        · split
-          · exact (keeps_unsupported _).good
-          · rename_i body _
-            exact good_wrap (eval cfg [] f body) (fun s => macroEnter body { s with x := { s.x with token := none } })
+        · rename_i nm
+          refine ⟨fun s => ?_⟩
+          cases hb : lookupAssoc (cfg.macrosOf s.env.topFrame.tid) nm with
+          | none =>
+            intro top rest _
+            constructor <;> intro _ _ h <;> simp [hb] at h
+          | some body =>
+            have hw := (good_wrap (eval cfg [] f body) (fun s => macroEnter s.env.topFrame.tid body { s with x := { s.x with token := none } })
               (fun s s' => macroLeave { s with x := { s.x with token := none } } s')
               (fun s s' => macroRaise { s with x := { s.x with token := none } } s')
-              (fun _ => macroEnter_streams _ _) (fun _ _ => rfl) (fun _ _ => rfl) (ihE [] body)
+              (fun _ => macroEnter_streams _ _ _) (fun _ _ => rfl) (fun _ _ => rfl) (ihE [] body)).at_ s
+            intro top rest hs
+            obtain ⟨h1, h2⟩ := hw top rest hs
+            constructor
+            · intro a s' h; simp only [hb] at h; exact h1 a s' h
+            · intro e s' h; simp only [hb] at h; exact h2 e s' h
       | codeBlock src => simp only [eval]; exact (keeps_unsupported _).good
     · intro al ns
       cases ns with
